@@ -4,7 +4,7 @@
 From Coq Require Import String.
 From Coq Require Import List NArith Bool Arith Lia.
 From VF Require Import Matcher.Model Matcher.ParserFacts Matcher.EvalFacts Matcher.PrintLex Matcher.PrintParse
-  Matcher.Canon C18.Entry C18.HoldsProof.
+  Matcher.ParseSound Matcher.Canon C18.Entry C18.HoldsProof.
 Import ListNotations.
 
 (* ---- grammar ---- *)
@@ -48,6 +48,26 @@ Proof.
                 | apply or_left | apply paren_or_and]; assumption.
 Qed.
 Print Assumptions C18_precedence.
+
+(* the converse (the documented grammar, i.e. without the bare-keyword quirk D14c): whatever is
+   accepted is a legal layout of the returned tree *)
+Theorem C18_parse_sound : forall V compile,
+  bare_keyword_atom V = false -> forall s e, parse V compile s = Ok e ->
+  exists t w0 w3, ok 0 t /\ is_ws w0 /\ is_ws w3 /\ s = w0 ++ print t ++ w3 /\ erase t = e /\ compiled compile t.
+Proof. exact parse_sound. Qed.
+Print Assumptions C18_parse_sound.
+
+(* hence the accepted language is exactly the set of legal layouts, each with its own tree:
+   every other string is rejected (with ParseError, by C18_errors_are_ValueError) *)
+Theorem C18_grammar_exact : forall V compile s e,
+  bare_keyword_atom V = false ->
+  (parse V compile s = Ok e <->
+   exists t w0 w3, ok 0 t /\ is_ws w0 /\ is_ws w3 /\ s = w0 ++ print t ++ w3 /\ erase t = e /\ compiled compile t).
+Proof.
+  intros V compile s e HV. split; [now apply parse_sound|].
+  intros (t & w0 & w3 & Hok & Hw0 & Hw3 & -> & <- & Hc). now apply parse_print.
+Qed.
+Print Assumptions C18_grammar_exact.
 
 (* ---- evaluation ---- *)
 (* match() on an expression tree is the documented truth table over the atoms, whenever the atoms
